@@ -156,6 +156,30 @@ def concatenate (byTol : Bool) (τ : Rat) (chans : List (List (Rat × Wave))) : 
     | some final, some ms, some lastp => mapMExcept (padChan τ lastp.mode final ms) rs
     | _, _, _ => .error .empty
 
+/-! ## Repaired variant (fixes/C12-2.patch): channels and gate lists without any pulse stay empty
+(`None` / empty maps) instead of raising -/
+
+/-- padding of the repaired code: a channel without pulse is skipped (`if not compiled_tlist[pulse_ind]: continue`) -/
+def padChanO (τ : Rat) (pm : Mode) (final ms : Rat) (r : List Rat × List Rat × Rat) :
+    Except Err (Option (List Rat × List Rat)) :=
+  if r.1.isEmpty then .ok none else
+  match padChan τ pm final ms r with
+  | .error e => .error e
+  | .ok o => .ok (some o)
+
+/-- `_concatenate_pulses` of the repaired code; `none` = the channel has no pulse (`compiled_tlist[i] = None`).
+`end_times = [tlist[-1][-1] for tlist in compiled_tlist if tlist]; final_time = max(end_times) if end_times else 0` -/
+def concatenateZ (byTol : Bool) (τ : Rat) (chans : List (List (Rat × Wave))) :
+    Except Err (List (Option (List Rat × List Rat))) :=
+  match mapMExcept (chanLoop byTol τ true 0) chans with
+  | .error e => .error e
+  | .ok rs =>
+    let final := (maxList ((rs.filter (fun r => !r.1.isEmpty)).map (·.2.2))).getD 0
+    match minStep (procs chans), (procs chans).getLast? with
+    | some ms, some lastp =>
+      mapMExcept (padChanO τ lastp.mode final ms) rs
+    | _, _ => .ok (rs.map fun _ => none)
+
 /-! ## `_schedule` and the grouping loop of `compile` -/
 
 /-- coefficient of one pulse of an instruction -/
@@ -242,5 +266,26 @@ def compile (byTol : Bool) (τ : Rat) (instrs : List Instr) (sch : Option (List 
       match concatenate byTol τ (groups.map (·.2)) with
       | .error e => some (.error e)
       | .ok outs => some (.ok (some ((groups.map (·.1)).zip outs)))
+
+/-- `GateCompiler.compile` with the variants of the working tree: `dropZero` — instructions of zero duration are
+dropped before scheduling (`[ins for ins in instruction if ins.duration != 0]`); `emptyOk` — fixes/C12-2.patch -/
+def compileV (dropZero emptyOk byTol : Bool) (τ : Rat) (instrs0 : List Instr) (sch : Option (List Rat × List Nat)) :
+    Option (Except Err (Option (List (Nat × Option (List Rat × List Rat))))) :=
+  let instrs := if dropZero then instrs0.filter (fun i => i.duration != 0) else instrs0
+  if instrs.isEmpty then some (.ok none) else
+  match schedule instrs sch with
+  | .error e => some (.error e)
+  | .ok (is, starts) =>
+    match groupPulses (is.zip starts) [] with
+    | none => none
+    | some groups =>
+      if emptyOk then
+        match concatenateZ byTol τ (groups.map (·.2)) with
+        | .error e => some (.error e)
+        | .ok outs => some (.ok (some ((groups.map (·.1)).zip outs)))
+      else
+        match concatenate byTol τ (groups.map (·.2)) with
+        | .error e => some (.error e)
+        | .ok outs => some (.ok (some ((groups.map (·.1)).zip (outs.map some))))
 
 end QipVerif.Concat
